@@ -7,7 +7,7 @@ def run(ctx):
     P = semcheck.gen_programs(ctx.seed * 7919 + 12, ctx.pick(160, 2500), "negloop")
     P += common.family_small(ctx.pick(300, 5000), ctx.seed + 1000)
     P += semcheck.gen_programs(ctx.seed * 7919 + 13, ctx.pick(60, 800), "strat")
-    common.sem_check(ctx, P, variants=lambda p: [("default", {"text": progs.render(p)})], level="model_checking")
+    common.sem_check(ctx, P, variants=lambda p: [("default", {"text": progs.render(p)})], level="exploration")
 
 
 def replay(ctx, path):
